@@ -49,12 +49,13 @@ type evmCase struct {
 }
 
 type wcase struct {
-	Kind string `json:"kind"` // neo | native | evm | pool
+	Kind string `json:"kind"` // neo | amp | native | evm | pool | validate
 	// neo
 	Code     []byte `json:"code,omitempty"`
 	GasLimit uint64 `json:"gl,omitempty"`
 	GasPrice uint64 `json:"gp,omitempty"`
 	Signers  []int  `json:"sg,omitempty"`
+	Probe    bool   `json:"probe,omitempty"` // amp: enter the node routes even when the metered run went over its bound
 	// native
 	History []natCall `json:"hist,omitempty"`
 	Call    *natCall  `json:"call,omitempty"`
@@ -93,7 +94,29 @@ type wreply struct {
 	BlockTx []pathRes `json:"btx,omitempty"`    // per-transaction state of the block route (native/evm kinds)
 	EvmGas  []uint64  `json:"evmgas,omitempty"` // gas used by each EVM transaction of the case
 	Valid   pathRes   `json:"valid"`            // raw-bytes decoding + stateless/stateful validation route
+	Amp     *ampRes   `json:"amp,omitempty"`    // kind amp: deterministic resource counters of the metered run
 }
+
+// ampRes: counters of the metered run of an amplification program (worker side: meterAmp) and of
+// the probe inside the node routes (liveItems of the NeoVmService's own executor on entry to every
+// service handler).
+type ampRes struct {
+	Ops    int    `json:"ops"`            // opcodes executed (each is charged at least 1 gas by the node)
+	Peak   int    `json:"peak"`           // largest number of live VM items seen (distinct containers + their slots + stack slots)
+	PeakAt int    `json:"at"`             // Ops when Peak was seen
+	Bound  int    `json:"bound"`          // ampBound(PeakAt)
+	Over   bool   `json:"over,omitempty"` // Peak > Bound: the run was stopped there and (unless wcase.Probe) the node routes were NOT entered
+	End    string `json:"end"`            // end | syscall | fault:<error> | stepcap | over
+	Final  int    `json:"final"`          // live items when the metered run ended (not counted beyond 4 x ampBound(Ops))
+	// probe: live items on entry to the FIRST service call (-1 = no service call) and the largest count at any
+	BlockFirst int `json:"bf"`
+	BlockPeak  int `json:"bp"`
+	PreFirst   int `json:"pf"`
+	PrePeak    int `json:"pp"`
+}
+
+// ampBound is the number of live VM items a program may hold after `ops` executed opcodes.
+func ampBound(ops int) int { return 65536 + 1024*ops }
 
 // ---------------------------------------------------------------------------------------------
 // zoo
